@@ -15,8 +15,9 @@ F22 (`cascadeDown` detaches the bucket before walking it) and F32 (`schedule` re
 `_wheelMutex`).  The walk of the unrepaired `cascadeDown` (dynamic `next` pointers) is kept at the end of the file
 as `legacyWalk`, only to exhibit the livelock the repair removes.
 
-Not modelled: `TimingWheel::reset()` (ids restart at 1), the callback pool/free list, the dispatcher, the error
-callback, wrap-around of `size_t` tick counters and of 64-bit nanosecond arithmetic.
+Not modelled: the callback pool/free list, the dispatcher, the error
+callback, wrap-around of `size_t` tick counters.  64-bit nanosecond arithmetic: deadlines are computed by the saturating
+`deadlineAfter` (repair FC08c), so for clock values `0 ≤ now ≤ tpMax` no deadline computation wraps, whatever the delay.
 -/
 namespace Iora.Wheel
 
@@ -45,9 +46,9 @@ structure Entry where
   bucket : Nat
   deriving DecidableEq, Repr
 
-/-- `enum class TimingWheelState` (RESET is reachable only through `reset()`, which is not modelled) -/
+/-- `enum class TimingWheelState` (RESET is reachable only through `reset()`) -/
 inductive LState where
-  | created | running | draining | stopped
+  | created | running | draining | stopped | reset
   deriving DecidableEq, Repr
 
 structure Wheel where
@@ -98,12 +99,26 @@ def unlink (id : Nat) : List Entry → Option (Entry × List Entry)
       | none => none
       | some (x, r) => some (x, e :: r)
 
+/-- `TimePoint::max()`: the largest value a `steady_clock::time_point` (int64 nanoseconds) holds -/
+def tpMax : Int := 9223372036854775807
+
+/-- mirrors `deadlineAfter(now, delay)` (repair FC08c): `now + std::clamp(delay, -behind, ahead)` with
+`ahead = duration_cast<milliseconds>(TimePoint::max() - now)`, `behind = duration_cast<milliseconds>(now.time_since_epoch())`;
+`std::clamp(v, lo, hi) = v < lo ? lo : hi < v ? hi : v`.
+For `0 ≤ now ≤ tpMax` the result lies in `[0, tpMax]` and no intermediate value leaves the int64 range (`deadlineAfter_bounds`), it is
+`now + delay` whenever that is a representable time point at or after the epoch (`deadlineAfter_exact`), and within one millisecond of
+`tpMax` when `now + delay` is beyond it (`deadlineAfter_saturates`). -/
+def deadlineAfter (now delayMs : Int) : Int :=
+  let ahead := Int.tdiv (tpMax - now) nsPerMs
+  let behind := Int.tdiv now nsPerMs
+  now + (if delayMs < -behind then -behind else if ahead < delayMs then ahead else delayMs) * nsPerMs
+
 /-- mirrors `schedule(delay, cb)`; `now` is the value `Clock::now()` returns inside the call -/
 def schedule (c : Cfg) (w : Wheel) (now delayMs : Int) : Wheel × Nat :=
   if !w.accepting then (w, 0)
   else
     let id := w.nextId
-    (insertEntry c { w with nextId := id + 1 } id (now + delayMs * nsPerMs) delayMs, id)
+    (insertEntry c { w with nextId := id + 1 } id (deadlineAfter now delayMs) delayMs, id)
 
 /-- mirrors `cancel(id)` -/
 def cancel (w : Wheel) (id : Nat) : Wheel × Bool :=
@@ -115,7 +130,7 @@ def cancel (w : Wheel) (id : Nat) : Wheel × Bool :=
 def reschedule (c : Cfg) (w : Wheel) (now : Int) (id : Nat) (delayMs : Int) : Wheel × Bool :=
   match unlink id w.entries with
   | none => (w, false)
-  | some (_, rest) => (insertEntry c { w with entries := rest } id (now + delayMs * nsPerMs) delayMs, true)
+  | some (_, rest) => (insertEntry c { w with entries := rest } id (deadlineAfter now delayMs) delayMs, true)
 
 /-- first loop of the repaired `collectFromBucket`/`cascadeDown`: unlink every entry of the bucket into `pending` -/
 def detach (w : Wheel) (l b : Nat) : List Entry × Wheel :=
@@ -171,9 +186,17 @@ def ticksToProcess (c : Cfg) (w : Wheel) (now : Int) : Nat :=
 def advance (c : Cfg) (w : Wheel) (now : Int) : Wheel × List Entry :=
   tickLoop c now (ticksToProcess c w now) ({ w with lastAdvance := some now }, [])
 
-/-- mirrors `start()` minus the thread: only from CREATED -/
+/-- mirrors `start()` minus the thread: only from CREATED or RESET (the two `compare_exchange_strong`) -/
 def start (w : Wheel) (now : Int) : Wheel :=
-  if w.state = .created then { w with accepting := true, lastAdvance := some now, state := .running } else w
+  if w.state = .created ∨ w.state = .reset then { w with accepting := true, lastAdvance := some now, state := .running } else w
+
+/-- mirrors `reset()`: the code asserts STOPPED (any other state is a contract violation of the caller: no transition here);
+`clearAllEntries()`, every `currentTick = 0`, `_lastAdvanceTime = TimePoint{}`, **`_nextId = 1`** (ids restart), state RESET.
+`_accepting` is not touched (it is false in every STOPPED state, `Inv.acc`). -/
+def reset (w : Wheel) : Wheel :=
+  if w.state = .stopped then
+    { w with entries := [], cur := List.replicate w.cur.length 0, lastAdvance := none, nextId := 1, state := .reset }
+  else w
 
 def insertSorted (e : Entry) : List Entry → List Entry
   | [] => [e]
@@ -270,11 +293,12 @@ def issued (h : Hist) : List Nat := h.flatMap issuedOf
 def fired (h : Hist) : List Nat := h.flatMap firedOf
 def left (h : Hist) : List Nat := h.flatMap leftOf
 
-/-- the deadline the CALLER asked for, from the history alone: `now + delay` of the latest successful
+/-- the deadline the CALLER asked for, from the history alone: `now + delay` (saturated by `deadlineAfter` at the end of the
+clock's range: equal to `now + delay` whenever that is representable, `deadlineAfter_exact`) of the latest successful
 `schedule`/`reschedule` of the id -/
 def deadlineUpd (d : Nat → Option Int) : Op × Out → Nat → Option Int
-  | (.sched now delay, .id n) => fun i => if n ≠ 0 ∧ i = n then some (now + delay * nsPerMs) else d i
-  | (.resched now id delay, .bool true) => fun i => if i = id then some (now + delay * nsPerMs) else d i
+  | (.sched now delay, .id n) => fun i => if n ≠ 0 ∧ i = n then some (deadlineAfter now delay) else d i
+  | (.resched now id delay, .bool true) => fun i => if i = id then some (deadlineAfter now delay) else d i
   | _ => d
 
 def lastDeadline (h : Hist) : Nat → Option Int := h.foldl deadlineUpd (fun _ => none)
